@@ -29,7 +29,7 @@ CONSTANT SrcTab(_)      \* source id -> [name, alias, kind]   kind in "table", "
 Alias(t) == IF "al" \in DOMAIN t THEN t.al ELSE ""
 SrcQual(s) == IF SrcTab(s).alias # "" THEN SrcTab(s).alias ELSE SrcTab(s).name
 
-Empty == [ from |-> <<>>, sel |-> <<>>, star |-> FALSE, distinct |-> FALSE,
+Empty == [ from |-> <<>>, sel |-> <<>>, star |-> FALSE, startabs |-> {}, distinct |-> FALSE,
            joins |-> <<>>, whr |-> <<>>, pre |-> <<>>, grp |-> <<>>, hav |-> <<>>, ord |-> <<>>,
            lim |-> -1, off |-> -1, top |-> -1,
            ins |-> "", cols |-> <<>>, vals |-> <<>>, replace |-> FALSE, selinto |-> FALSE,
@@ -84,12 +84,32 @@ Raises(b, c) ==
 \* a criterion mentions a table that is neither a base table nor joined (sets the foreign-table flag)
 Foreign(b, crit) == \E s \in CritSources(crit) : s # "" /\ ~InSet(s, BaseSet(b) \cup JoinedSet(b))
 
+\* The select list, one item at a time, as QueryBuilder.select dispatches it:
+\*  - a column is dropped once "*" was selected, or the star of its table (table membership is the library's table equality);
+\*  - a table star removes the columns / star of that table selected so far, is remembered, and is dropped if it repeats;
+\*  - anything else (function, arithmetic, constant) is appended whatever was selected before, even after "*".
+\* (Not modelled: a Star() object without a table passed to select(); select("*") is the selectstr call.)
+SelItem(b, t) ==
+    IF t.k = "fld" THEN
+        IF b.star \/ (t.src # "" /\ InSet(t.src, b.startabs)) THEN b ELSE [b EXCEPT !.sel = Append(@, t)]
+    ELSE IF t.k = "star" /\ t.src # "" THEN
+        IF b.star \/ InSet(t.src, b.startabs) THEN b
+        ELSE [b EXCEPT !.sel = Append(SelectSeq(@, LAMBDA s : ~(s.k \in {"fld", "star"} /\ s.src # "" /\ SameTable(s.src, t.src))), t),
+                       !.startabs = @ \cup {t.src}]
+    ELSE [b EXCEPT !.sel = Append(@, t)]
+RECURSIVE SelFold(_, _, _)
+SelFold(b, ts, i) == IF i > Len(ts) THEN b ELSE SelFold(SelItem(b, ts[i]), ts, i + 1)
+\* the select list as <<qualifier-source, what>> pairs (what: a column name, "*", "FN" for a call, "EXPR" otherwise)
+SelProj(b) == [i \in DOMAIN b.sel |->
+                 LET s == b.sel[i] IN
+                 IF s.k = "fld" THEN <<s.src, s.n>> ELSE IF s.k = "star" THEN <<s.src, "*">>
+                 ELSE IF s.k = "call" THEN <<"", "FN">> ELSE <<"", "EXPR">>]
+
 Eff(b, c) ==
     CASE c.m = "from_" -> [b EXCEPT !.from = Append(@, c.src)]
-      [] c.m = "select" -> IF b.star THEN b ELSE [b EXCEPT !.sel = @ \o c.terms]
+      [] c.m = "select" -> SelFold(b, c.terms, 1)
       [] c.m = "selectstr" -> IF c.name = "*" THEN [b EXCEPT !.star = TRUE, !.sel = << [k |-> "star", src |-> ""] >>]
-                              ELSE IF b.star THEN b
-                              ELSE [b EXCEPT !.sel = Append(@, [k |-> "fld", src |-> b.from[1], n |-> c.name, al |-> ""])]
+                              ELSE SelItem(b, [k |-> "fld", src |-> b.from[1], n |-> c.name, al |-> ""])
       [] c.m = "distinct" -> [b EXCEPT !.distinct = TRUE]
       [] c.m = "where" ->
             IF ~b.oc THEN [b EXCEPT !.whr = Append(@, c.crit), !.foreign = @ \/ Foreign(b, c.crit)]
